@@ -171,6 +171,17 @@ def to_query(a):
         return query.TermRange(a["f"], term_text(a["lo"]) if a["haslo"] else None,
                                term_text(a["hi"]) if a["hashi"] else None,
                                startexcl=a["loexcl"], endexcl=a["hiexcl"], boost=b)
+    if op == "regex":
+        out = []
+        for c, lo, hi, brace in a["atoms"]:
+            ch = u"." if c == 0 else LETTERS[c]
+            if (lo, hi) == (1, 1):
+                out.append(ch)
+            elif not brace and (lo, hi) in ((0, 1), (0, -1), (1, -1)):
+                out.append(ch + {(0, 1): u"?", (0, -1): u"*", (1, -1): u"+"}[(lo, hi)])
+            else:
+                out.append(u"%s{%d,%s}" % (ch, lo, u"" if hi < 0 else hi))
+        return query.Regex(a["f"], u"".join(out), boost=b)
     if op == "colq":
         v = a["v"]
         return query.ColumnQuery(a["f"], v if a["rel"] == "eq" else (lambda x, v=v: x <= v))
@@ -321,7 +332,8 @@ def rand_plan(rng, keys, max_segments=4, deletions=True):
     return plan
 
 
-LEAF_OPS = ["term", "term", "term", "every", "null", "prefix", "wildcard", "fuzzy", "termrange", "numrange", "phrase"]
+LEAF_OPS = ["term", "term", "term", "every", "null", "prefix", "wildcard", "fuzzy", "termrange", "numrange", "phrase",
+            "regex"]
 
 
 def rand_query(rng, depth, nletters=2, maxlen=2, scored_only=False, boosts=True, ops=None):
@@ -342,6 +354,13 @@ def rand_query(rng, depth, nletters=2, maxlen=2, scored_only=False, boosts=True,
             return {"op": "null"}
         if op == "prefix":
             return {"op": "prefix", "f": f, "t": rand_term(rng, nletters, 1), "b4": b4}
+        if op == "regex":
+            # letters (or any character) with the quantifiers ?, *, +, {m,n} in both spellings
+            atoms = []
+            for _ in range(rng.randrange(1, 4)):
+                lo, hi = rng.choice([(1, 1), (1, 1), (0, 1), (0, -1), (1, -1), (0, 2), (1, 2), (2, 2), (0, 0)])
+                atoms.append([rng.choice([0, 1, 2, 1, 2]), lo, hi, rng.random() < 0.5])
+            return {"op": "regex", "f": f, "atoms": atoms, "b4": b4}
         if op == "wildcard":
             pat = [rng.choice([1, 2, -1, -2, 1, 2, -1, -2, -3]) for _ in range(rng.randrange(1, 4))]   # -3: [ab]
             return {"op": "wildcard", "f": f, "t": pat, "b4": b4}
